@@ -91,12 +91,14 @@ def worker(chunk, seed, tier):
             infmt = in_mod if (give_i or infmt_needed) else None
             outfmt = tname if (give_o or outfmt_needed) else None
             # when the format is given explicitly, use a neutral output name so the option really decides
-            outpath = str(tmp / (("explicit.out" if give_o and not outfmt_needed else outname)))
+            # ("conflict": a name from which another writable format would be inferred - the option must still win)
+            conflict = "explicit.sdf" if tname == "xyz" else "explicit.xyz"
+            outpath = str(tmp / (conflict if give_o == "conflict" else ("explicit.out" if give_o and not outfmt_needed else outname)))
             os.makedirs(tmp / "ref", exist_ok=True)
             refpath = str(tmp / "ref" / os.path.basename(outpath))
             if os.path.exists(refpath):
                 os.remove(refpath)
-            info = {"input": fname, "target": tname, "-i": infmt, "-o": outfmt, "-c": allow, "-m": many}
+            info = {"input": fname, "target": tname, "-i": infmt, "-o": outfmt, "-c": allow, "-m": many, **({"output-name": "conflicting"} if give_o == "conflict" else {})}
             part.nontrivial(repr(info))
             if len(part.samples) < 1 and give_i and allow:
                 part.sample(info)
@@ -210,13 +212,16 @@ def run(ctx):
                 if origin == "corpus" and not ctx.thorough and (give_i != give_o):
                     continue  # quick: corpus inputs with half of the option grid
                 jobs.append((origin, fname, infmt_needed, text, tname, outname, outfmt_needed, give_i, give_o, allow, many))
+            if origin == "generated" or ctx.thorough:
+                for allow, many in itertools.product((False, True), repeat=2):
+                    jobs.append((origin, fname, infmt_needed, text, tname, outname, outfmt_needed, True, "conflict", allow, many))
     jobs.sort(key=lambda j: -len(j[3]))
     pmap(ctx, worker, jobs, chunk=16)
     subprocess_cases(ctx, inputs)
     ctx.cov.update(inputs=len(inputs), generated_inputs=len(gen), corpus_inputs=len(corpus), targets=len(targets()), runs=len(jobs))
     ctx.exhaustive = True
     ctx.rule = (
-        "full product: (generated file of every writable format + trajectories, corpus files up to 25 kB quick / 400 kB thorough) x 13 target formats x {-i given/inferred} x {-o given/inferred} x {-c} x {-m}, "
+        "full product: (generated file of every writable format + trajectories, corpus files up to 25 kB quick / 400 kB thorough) x 13 target formats x {-i given/inferred} x {-o given/inferred, given with an output name of another writable format} x {-c} x {-m}, "
         "executed through iodata.__main__.main() with a patched argv (so argparse, flag mapping and the floating-point trap are exercised) and compared byte-for-byte with the file written by the "
         "corresponding API calls; a cross-section runs as a real `python -m iodata` subprocess (exit status, stderr, bytes). Distinct = (input, target, option set)."
     )
